@@ -1,0 +1,67 @@
+//go:build verif
+
+// Contracts for contract-based deductive verification (govc, /verif).
+// This file contains comments only; it adds no code to the package.
+
+package blocklist
+
+//@ opaque github.com/gauss-project/aurorafs/pkg/boson.Address as Addr
+//@ # the clock: value returned by the latest timeNow() call
+//@ ghost clock int
+
+//@ # timeNow is the package's test hook (var timeNow = time.Now); the clock never goes back
+//@ func timeNow
+//@   trusted
+//@   assigns ghost clock
+//@   ensures clock >= old(clock) && result == clock
+
+//@ # key under which an overlay's entry lives (generateKey)
+//@ spec func bkey(o boson.Address) string = keyPrefix + pure("(github.com/gauss-project/aurorafs/pkg/boson.Address).String", o)
+//@ # duration recorded in a stored entry (0 = forever)
+//@ spec func edur(e entry) int = model("time.ParseDuration", e.Duration)
+
+//@ func generateKey
+//@   inline
+//@ func (*Blocklist).get
+//@   inline
+
+//@ func (*Blocklist).Exists
+//@   property C25
+//@   requires b.store != nil
+//@   let k = bkey(overlay)
+//@   let had = stored(b.store, k)
+//@   let e0 = storedval(b.store, k, entry)
+//@   let d0 = edur(storedval(b.store, k, entry))
+//@   ensures absent: !had ==> !result0 && result1 == nil
+//@   ensures blocked-iff: result1 == nil && had ==> (result0 <==> (edur(e0) == 0 || clock - e0.Timestamp <= edur(e0)))
+//@   ensures error-means-unblocked-answer: result1 != nil ==> !result0
+//@   ensures others-untouched: forall k2 string :: k2 != k ==> (stored(b.store, k2) <==> old(stored(b.store, k2)))
+//@   ensures deletes-only-expired: had && result0 ==> stored(b.store, k)
+//@   ensures clock-monotone: clock >= old(clock)
+
+//@ func (*Blocklist).Remove
+//@   property C25
+//@   requires b.store != nil
+//@   let k = bkey(overlay)
+//@   ensures removed: result == nil ==> !stored(b.store, k)
+//@   ensures failed-unchanged: result != nil ==> (stored(b.store, k) <==> old(stored(b.store, k)))
+//@   ensures others-untouched: forall k2 string :: k2 != k ==> (stored(b.store, k2) <==> old(stored(b.store, k2)))
+
+//@ func (*Blocklist).Add
+//@   property C25
+//@   note negative durations are outside the property ("any duration, including zero")
+//@   requires duration >= 0 && b.store != nil
+//@   let k = bkey(overlay)
+//@   let had = stored(b.store, k)
+//@   let e0 = storedval(b.store, k, entry)
+//@   let d0 = edur(storedval(b.store, k, entry))
+//@   ensures stored-on-success: err == nil ==> stored(b.store, k)
+//@   ensures timestamp-now: err == nil ==> storedval(b.store, k, entry).Timestamp == clock
+//@   ensures zero-is-forever: err == nil && duration == 0 ==> edur(storedval(b.store, k, entry)) == 0
+//@   ensures never-shorter: err == nil && had ==> (edur(e0) == 0 ==> edur(storedval(b.store, k, entry)) == 0) && (edur(storedval(b.store, k, entry)) == 0 || edur(storedval(b.store, k, entry)) >= edur(e0))
+//@   ensures covers-request: err == nil ==> edur(storedval(b.store, k, entry)) == 0 || edur(storedval(b.store, k, entry)) >= duration
+//@   ensures not-longer-than-longest: err == nil && edur(storedval(b.store, k, entry)) != 0 ==> edur(storedval(b.store, k, entry)) == duration || (had && edur(storedval(b.store, k, entry)) == edur(e0))
+//@   ensures forever-only-if-requested: err == nil && edur(storedval(b.store, k, entry)) == 0 ==> duration == 0 || (had && edur(e0) == 0)
+//@   ensures failed-unchanged: err != nil ==> (stored(b.store, k) <==> had) && storedval(b.store, k, entry) == e0
+//@   ensures others-untouched: forall k2 string :: k2 != k ==> (stored(b.store, k2) <==> old(stored(b.store, k2))) && storedval(b.store, k2, entry) == old(storedval(b.store, k2, entry))
+//@   ensures clock-monotone: clock >= old(clock)
